@@ -329,4 +329,9 @@ def run(sess: Session):
                 sess.check(ob)
         except Unsupported as exc:
             sess.unsupported(f'C08:{part}', str(exc))
+    try:
+        for ob in coreflows.wordnet_init_obligations(PROP):
+            sess.check(ob)
+    except Unsupported as exc:
+        sess.unsupported('wn._core.Wordnet.__init__:flow', str(exc))
     bounded(sess)
